@@ -23,12 +23,70 @@ and `push_source_eval`: `more_pending = emit_next(...)` (`pop`), then
 `if (more_pending) mark_push_update_pending()` (`rearm`).  So a queue source that still holds values
 re-arms the SAME flag from inside the cycle that was entered by resetting it.
 
+The conflating policy comes in two forms.  With a scalar output (`TS<int>`, `cfg.dict = false`)
+every delta has effect and merging keeps the last value (as in `PushQueue`).  With a COLLECTION
+output (`TSD<int, TS<int>>`, `cfg.dict = true`) the payloads are collection deltas that
+`ConflatingPolicyStorage::try_send` merges into a per-window accumulator:
+
+    const bool was_pending = pending;
+    apply_delta(accumulator.view(mutation_time), value.view());     -- a NO-OP when the delta has no effect
+    pending = pending || accumulator.view(mutation_time).modified();
+    return {.accepted = true, .wake_required = pending && !was_pending};
+
+(`ts_delta.cpp apply_delta / delta_has_effect_tsd / apply_delta_tsd`: a delta with sets always has
+effect; removals only have effect if a removed key is in the accumulator; the empty delta only
+validates a fresh accumulator; removals are applied before sets), and `take_accumulated` hands the
+accumulated VALUE of the window over (`apply_current_value`) iff `pending`, then starts a fresh
+accumulator.  The policy's `pending` flag is represented by the marker deque: `pending ⇔ deque ≠ []`
+(so `pending_items = deque.length` as for the scalar form).
+
 The atomic steps are the mutex-protected sections; `step` is a partial deterministic function of
 the label, the theorems quantify over all label sequences (`Reach`), the driver composes the same
 function per operation (`Drivers/C16N.lean`).  Core Lean only.
 -/
 namespace HgVerif.PushQueueN
 open HgVerif.PushQueue (Policy Cfg SendKind Outcome PPc upd)
+
+/-! ### collection deltas and the conflating accumulator (`TSD<int, TS<int>>`) -/
+
+/-- a `TSD` delta: lenient removals (applied first), then sets -/
+structure Delta where
+  removes : List Nat := []
+  sets : List (Nat × Nat) := []
+deriving Repr, DecidableEq
+
+/-- a dict value: association list with unique keys (printed sorted by key) -/
+abbrev Dict := List (Nat × Nat)
+
+def dictErase (m : Dict) (k : Nat) : Dict := m.filter (fun e => e.1 != k)
+def dictSet (m : Dict) (kv : Nat × Nat) : Dict := dictErase m kv.1 ++ [kv]
+def dictHas (m : Dict) (k : Nat) : Bool := m.any (fun e => e.1 == k)
+
+/-- `delta_has_effect_tsd` against accumulator `a` (`none` = fresh, not yet valid) -/
+def Delta.hasEffect (a : Option Dict) (d : Delta) : Bool :=
+  if !d.sets.isEmpty then true
+  else if !d.removes.isEmpty then d.removes.any (fun k => dictHas (a.getD []) k)
+  else a.isNone            -- the explicitly empty tick validates a fresh collection, else it is deduplicated
+
+/-- `apply_delta` on the accumulator: skipped when the delta has no effect; the Boolean is
+    `accumulator.view(mutation_time).modified()` -/
+def applyDelta (a : Option Dict) (d : Delta) : Option Dict × Bool :=
+  if d.hasEffect a then
+    (some (d.sets.foldl dictSet (d.removes.foldl dictErase (a.getD []))), true)
+  else (a, false)
+
+/-- the specification of one conflation window: the fold of its accepted deltas from a fresh
+    accumulator, and whether any of them had effect -/
+def foldWindow (w : List Delta) : Option Dict × Bool :=
+  w.foldl (fun s d => ((applyDelta s.1 d).1, s.2 || (applyDelta s.1 d).2)) (none, false)
+
+/-- the policy is the conflating one with a collection output -/
+def isDict (cfg : Cfg) : Bool :=
+  match cfg.policy with
+  | .conflating => cfg.dict
+  | _ => false
+
+def updD (f : Nat → Delta) (i : Nat) (d : Delta) : Nat → Delta := fun j => if j = i then d else f j
 
 /-- the state of ONE push source: control block, policy storage, its producers, ghost history -/
 structure Src where
@@ -40,6 +98,12 @@ structure Src where
   accepted : List (Nat × Nat) := []                       -- ghost: accepted (producer, value) in admission order
   delivered : List (Nat × List (Nat × Nat)) := []         -- ghost: (cycle time, values handed to the graph)
   results : List (Nat × SendKind × Nat × Outcome) := []   -- ghost: returned sends
+  -- collection-conflating sources (`isDict`): `deque` is the `pending` marker (`[]` / one entry)
+  pay : Nat → Delta := fun _ => {}                        -- the delta a producer is sending (its local `value`)
+  acc : Option Dict := none                               -- `accumulator` (`none` = fresh `TSOutput{schema}`)
+  window : List Delta := []                               -- ghost: deltas accepted since the last take
+  caccepted : List (Nat × Delta) := []                    -- ghost: accepted (producer, delta) in admission order
+  cdelivered : List (Nat × List Delta × Dict) := []       -- ghost: (cycle time, the window, value handed to the graph)
 
 /-- `QueuePolicyStorage::full()` -/
 def Src.full (cfg : Cfg) (x : Src) : Bool :=
@@ -55,6 +119,24 @@ def Src.accept (cfg : Cfg) (x : Src) (i : Nat) (k : SendKind) (v : Nat) : Src :=
     | _ => x.deque ++ [(i, v)]
   { x with deque := dq, accepted := x.accepted ++ [(i, v)], pcs := upd x.pcs i (.admitted k v wasEmpty) }
 
+/-- `ConflatingPolicyStorage::try_send` on a collection accumulator: always accepted; the delta is
+    merged (a no-op when it has no effect); `pending = pending || modified`;
+    `wake_required = pending && !was_pending` -/
+def Src.acceptD (x : Src) (i : Nat) (k : SendKind) : Src :=
+  let r := applyDelta x.acc (x.pay i)
+  let wasPending := !x.deque.isEmpty
+  { x with acc := r.1, deque := if wasPending then x.deque else (if r.2 then [(i, 0)] else []),
+           window := x.window ++ [x.pay i], caccepted := x.caccepted ++ [(i, x.pay i)],
+           pcs := upd x.pcs i (.admitted k 0 ((wasPending || r.2) && !wasPending)) }
+
+/-- the seeded variant (s51): `pending = modified` — ASSIGNED instead of OR-ed -/
+def Src.acceptDSeeded (x : Src) (i : Nat) (k : SendKind) : Src :=
+  let r := applyDelta x.acc (x.pay i)
+  let wasPending := !x.deque.isEmpty
+  { x with acc := r.1, deque := if r.2 then (if wasPending then x.deque else [(i, 0)]) else [],
+           window := x.window ++ [x.pay i], caccepted := x.caccepted ++ [(i, x.pay i)],
+           pcs := upd x.pcs i (.admitted k 0 (r.2 && !wasPending)) }
+
 def Src.refuse (x : Src) (i : Nat) (k : SendKind) (v : Nat) (o : Outcome) : Src :=
   { x with pcs := upd x.pcs i .idle, results := x.results ++ [(i, k, v, o)] }
 
@@ -62,6 +144,7 @@ def Src.refuse (x : Src) (i : Nat) (k : SendKind) (v : Nat) (o : Outcome) : Src 
 inductive SLabel where
   | start                                -- the node's `start`: the policy starts accepting
   | enter (i : Nat) (k : SendKind) (v : Nat)
+  | enterD (i : Nat) (k : SendKind) (d : Delta)    -- a send whose payload is a collection delta (`isDict` sources)
   | check (i : Nat)
   | admitQ (i : Nat)
   | wake (i : Nat)
@@ -75,12 +158,20 @@ deriving Repr, DecidableEq
 def lstep (cfg : Cfg) (stopReq : Bool) (x : Src) : SLabel → Option (Src × Bool)
   | .start =>
     if x.started then none        -- restart is not supported by design
-    else some ({ x with started := true, accepting := true, deque := [] }, false)
+    else some ({ x with started := true, accepting := true, deque := [], acc := none, window := [] }, false)
   | .enter i k v =>
-    match x.pcs i with
+    if isDict cfg then none       -- an int payload does not fit a collection source (`invalid_argument`)
+    else match x.pcs i with
     | .idle =>
       if !x.started || x.closing then some (x.refuse i k v .refusedClosed, false)
       else some ({ x with pcs := upd x.pcs i (.entered k v) }, false)
+    | _ => none
+  | .enterD i k d =>
+    if !isDict cfg then none
+    else match x.pcs i with
+    | .idle =>
+      if !x.started || x.closing then some (x.refuse i k 0 .refusedClosed, false)
+      else some ({ x with pcs := upd x.pcs i (.entered k 0), pay := updD x.pay i d }, false)
     | _ => none
   | .check i =>
     match x.pcs i with
@@ -92,10 +183,12 @@ def lstep (cfg : Cfg) (stopReq : Bool) (x : Src) : SLabel → Option (Src × Boo
     match x.pcs i with
     | .checked .try_ v =>
       if !x.accepting then some (x.refuse i .try_ v .refusedNotAccepting, false)
+      else if isDict cfg then some (x.acceptD i .try_, false)
       else if x.full cfg then some (x.refuse i .try_ v .refusedFull, false)
       else some (x.accept cfg i .try_ v, false)
     | .checked .blocking v =>
       if !x.accepting then some (x.refuse i .blocking v .refusedNotAccepting, false)
+      else if isDict cfg then some (x.acceptD i .blocking, false)     -- conflating `send_blocking` = `try_send`
       else if x.full cfg then some ({ x with pcs := upd x.pcs i (.blocked v) }, false)
       else some (x.accept cfg i .blocking v, false)
     | _ => none
@@ -103,6 +196,7 @@ def lstep (cfg : Cfg) (stopReq : Bool) (x : Src) : SLabel → Option (Src × Boo
     match x.pcs i with
     | .blocked v =>
       if !x.accepting then some (x.refuse i .blocking v .refusedNotAccepting, false)
+      else if isDict cfg then some (x.acceptD i .blocking, false)     -- (unreachable: a conflating send never parks)
       else if x.full cfg then some (x, false)
       else some (x.accept cfg i .blocking v, false)
     | _ => none
@@ -112,7 +206,9 @@ def lstep (cfg : Cfg) (stopReq : Bool) (x : Src) : SLabel → Option (Src × Boo
       some ({ x with pcs := upd x.pcs i .idle, results := x.results ++ [(i, k, v, .accepted)] }, wake)
     | _ => none
   | .closeBegin => if x.started && !x.closing then some ({ x with closing := true }, false) else none
-  | .queueStop => if x.closing && x.accepting then some ({ x with accepting := false, deque := [] }, false) else none
+  | .queueStop =>
+    if x.closing && x.accepting then some ({ x with accepting := false, deque := [], acc := none, window := [] }, false)
+    else none
 
 /-- `emit_next` of one source at cycle time `t`: `try_pop` / `take_all` / `take_accumulated`;
     the Boolean is `more_pending` -/
@@ -120,7 +216,12 @@ def popL (cfg : Cfg) (t : Nat) (x : Src) : Src × Bool :=
   match cfg.policy, x.deque with
   | _, [] => (x, false)
   | .queue, v :: rest => ({ x with deque := rest, delivered := x.delivered ++ [(t, [v])] }, !rest.isEmpty)
-  | _, v :: rest => ({ x with deque := [], delivered := x.delivered ++ [(t, v :: rest)] }, false)
+  | _, v :: rest =>
+    if isDict cfg then
+      -- `take_accumulated`: the accumulated VALUE of the window; a fresh accumulator; `pending = false`
+      ({ x with deque := [], delivered := x.delivered ++ [(t, v :: rest)],
+                cdelivered := x.cdelivered ++ [(t, x.window, x.acc.getD [])], acc := none, window := [] }, false)
+    else ({ x with deque := [], delivered := x.delivered ++ [(t, v :: rest)] }, false)
 
 /-- the graph: `n` push sources (the push prefix, node indices `0 .. n-1`) with their policies -/
 structure Sys where
@@ -226,5 +327,38 @@ def runPerSource (sys : Sys) : St → List Label → St
 inductive ReachPerSource (sys : Sys) : St → Prop where
   | init : ReachPerSource sys {}
   | step {s s' : St} (l : Label) : ReachPerSource sys s → stepPerSource sys s l = some s' → ReachPerSource sys s'
+
+/-! ### the seeded variant (s51): the conflating `pending` flag is ASSIGNED from `modified()`
+
+`pending = accumulator.view(mutation_time).modified();` — an accepted delta without effect clears
+the flag an earlier effective delta of the same window had set.  Used only by the counter-lemma
+`assigning_pending_loses_accepted_delta`. -/
+def lstepS51 (cfg : Cfg) (stopReq : Bool) (x : Src) : SLabel → Option (Src × Bool)
+  | .admitQ i =>
+    match x.pcs i with
+    | .checked k _ =>
+      if isDict cfg && x.accepting then some (x.acceptDSeeded i k, false) else lstep cfg stopReq x (.admitQ i)
+    | _ => none
+  | l => lstep cfg stopReq x l
+
+def stepS51 (sys : Sys) (s : St) : Label → Option St
+  | .src k l =>
+    if k < sys.n then
+      if l = .closeBegin ∧ s.cpc ≠ .idle then none
+      else match lstepS51 (sys.cfg k) s.stopReq (s.src k) l with
+        | some (x, m) => some (if m then markFlag (setSrc s k x) else setSrc s k x)
+        | none => none
+    else none
+  | l => step sys s l
+
+def runS51 (sys : Sys) : St → List Label → St
+  | s, [] => s
+  | s, l :: ls => match stepS51 sys s l with
+    | some s' => runS51 sys s' ls
+    | none => runS51 sys s ls
+
+inductive ReachS51 (sys : Sys) : St → Prop where
+  | init : ReachS51 sys {}
+  | step {s s' : St} (l : Label) : ReachS51 sys s → stepS51 sys s l = some s' → ReachS51 sys s'
 
 end HgVerif.PushQueueN
